@@ -108,6 +108,7 @@ Qed.
 Lemma Q2R_100 : Q2R 100 = 100.  Proof. unfold Q2R; simpl; field. Qed.
 Lemma Q2R_tenth : Q2R (1 # 10) = / 10.  Proof. unfold Q2R; simpl; field. Qed.
 Lemma Q2R_zero : Q2R 0 = 0.  Proof. unfold Q2R; simpl; field. Qed.
+Lemma Q2R_one_C15 : Q2R 1 = 1.  Proof. unfold Q2R; simpl; field. Qed.
 
 (* whenever the model returns a time, the final guard makes it accurate to 0.1% for the function f
    it solves *)
@@ -240,7 +241,7 @@ Theorem zero_iff_already_below_repaired : forall dff data To target f0,
   (decay_time_core R numR false dff data To target = Ok RetZero <-> sumR data To 0 <= target).
 Proof.
   intros dff data To target f0 Hf. unfold decay_time_core, q. simpl nQ. rewrite Q2R_zero, Hf. cbn [rbind].
-  apply f_R in Hf. unfold fR in Hf. unfold dec, lt. cbn [nlt numR]. simpl nQ. rewrite Q2R_zero.
+  apply f_R in Hf. unfold fR in Hf. unfold dec, lt. cbn [nlt numR]. simpl nQ. rewrite ?Q2R_zero.
   destruct (Rlt_dec 0 f0) as [L|L]; cbn [negb].
   - split; [|intro; exfalso; lra]. intro H.
     destruct (initial_guess R numR To target data) as [x0| |]; cbn [rbind] in H; try discriminate.
@@ -279,3 +280,34 @@ Proof.
   destruct Hf as [f0 Hf]. apply (zero_iff_below_twice dff _ _ _ f0 Hf).
   rewrite sumR_true_A, HA. lra.
 Qed.
+
+(* ------------------------------------------------------------------ the derivative the model uses *)
+Lemma dfsum_R : forall data To t acc s, dfsum R numR data To t acc = Ok s -> s = acc + dfR data To t.
+Proof.
+  induction data as [|[Ia La] r IH]; intros To t acc s H; simpl in *.
+  - injection H as <-. ring.
+  - destruct (sexp R numR _) as [e| |] eqn:E; simpl in H; try discriminate.
+    apply sexp_R in E. subst e. apply IH in H. rewrite H. unfold q. simpl. rewrite Q2R_one_C15. ring.
+Qed.
+Lemma dfsum'_R : forall data To t acc s, dfsum' R numR data To t acc = Ok s -> s = acc - derR data To t.
+Proof.
+  induction data as [|[Ia La] r IH]; intros To t acc s H; simpl in *.
+  - injection H as <-. ring.
+  - destruct (sexp R numR _) as [e| |] eqn:E; simpl in H; try discriminate.
+    apply sexp_R in E. subst e. apply IH in H. rewrite H. simpl. ring.
+Qed.
+
+(* what df computes in the model: the code's (1-To) f' with the rest factor, f' without *)
+Theorem model_df : forall dff data To t v, df R numR dff data To t = Ok v ->
+  v = if dff then dfR data To t else derR data To t.
+Proof.
+  intros dff data To t v H. unfold df in H. destruct dff.
+  - apply dfsum_R in H. rewrite H. unfold q. simpl. rewrite Q2R_zero. ring.
+  - destruct (dfsum' R numR data To t _) as [s| |] eqn:E; simpl in H; try discriminate.
+    injection H as <-. apply dfsum'_R in E. rewrite E. unfold q. simpl. rewrite Q2R_zero. ring.
+Qed.
+
+(* repaired derivative: df is the derivative of f for every rest-time list *)
+Theorem df_is_derivative_repaired : forall data To target t v, df R numR false data To t = Ok v ->
+  is_derive (fR data To target) t v.
+Proof. intros data To target t v H. rewrite (model_df false _ _ _ _ H). apply fR_is_derive. Qed.
